@@ -34,11 +34,22 @@ VARIABLES reg,         \* Regs -> exact integer in the range of T
 mvars == <<reg, exact, ringok, out, steps>>
 
 BinMethods == {"wrapping_add", "wrapping_sub", "wrapping_mul", "op_add", "op_sub", "op_mul",
-               "bitand", "bitor", "bitxor", "checked_div", "checked_rem", "saturating_add", "saturating_sub", "min", "max"}
-UnMethods  == {"wrapping_neg", "not", "swap_bytes", "reverse_bits"} \cup (IF MW % 8 = 0 THEN {} ELSE {})
+               "bitand", "bitor", "bitxor", "checked_div", "checked_rem", "saturating_add", "saturating_sub", "min", "max",
+               \* second generation: the operators that panic in both build modes, Option-returning forms, other roundings
+               "op_div", "op_rem", "checked_add", "checked_sub", "checked_mul", "saturating_mul",
+               "checked_div_euclid", "checked_rem_euclid", "midpoint"}
+UnMethods  == {"wrapping_neg", "not", "swap_bytes", "reverse_bits"}
+              \cup (IF MS THEN {"op_neg", "op_abs", "wrapping_abs", "signum"} ELSE {"wrapping_next_power_of_two"})
 ShMethods  == {"wrapping_shl", "wrapping_shr", "rotate_left", "rotate_right", "op_shl", "op_shr"}
-RingMethods == {"wrapping_add", "wrapping_sub", "wrapping_mul", "wrapping_neg", "op_add", "op_sub", "op_mul"}
+PowMethods == {"wrapping_pow", "checked_pow", "saturating_pow", "op_pow"}
+\* composite actions: two library calls whose composition the properties fix (C10/C11/C12/C15 round trips)
+RtMethods  == {"rt_str_radix", "rt_radix_be", "rt_radix_le", "rt_display_parse", "rt_be_slice", "rt_le_slice"}
+FoldMethods == {"sum", "product", "sum_ref", "product_ref"}
+AssignMethods == {"op_add", "op_sub", "op_mul", "bitand", "bitor", "bitxor", "op_div", "op_rem"}
+RingMethods == {"wrapping_add", "wrapping_sub", "wrapping_mul", "wrapping_neg", "op_add", "op_sub", "op_mul", "op_neg"}
 
+\* Some(v) is stored like a value, None leaves the registers alone
+OptOut(v) == IF InRange(T, v) THEN OVal(T, v) ELSE ONone
 \* outcome of a binary method on exact operands: a value outcome, ONone or OPanic
 BinOut(m, x, y) ==
     CASE m = "wrapping_add" -> OWrapping(T, ZAdd(x, y))
@@ -56,11 +67,26 @@ BinOut(m, x, y) ==
       [] m = "checked_rem" -> IF ZIsZero(y) \/ IsMinNeg1(T, x, y) THEN ONone ELSE OVal(T, ZDivTrunc(x, y)[2])
       [] m = "min" -> OVal(T, ZMin(x, y))
       [] m = "max" -> OVal(T, ZMax(x, y))
+      \* `/` and `%`: zero divisor and MIN / -1 panic in both build modes (C04)
+      [] m = "op_div" -> IF ZIsZero(y) \/ IsMinNeg1(T, x, y) THEN OPanic ELSE OVal(T, ZDivTrunc(x, y)[1])
+      [] m = "op_rem" -> IF ZIsZero(y) \/ IsMinNeg1(T, x, y) THEN OPanic ELSE OVal(T, ZDivTrunc(x, y)[2])
+      [] m = "checked_add" -> OptOut(ZAdd(x, y))
+      [] m = "checked_sub" -> OptOut(ZSub(x, y))
+      [] m = "checked_mul" -> OptOut(ZMul(x, y))
+      [] m = "saturating_mul" -> OSaturating(T, ZMul(x, y))
+      [] m = "checked_div_euclid" -> IF ZIsZero(y) \/ IsMinNeg1(T, x, y) THEN ONone ELSE OVal(T, ZDivEuclid(x, y)[1])
+      [] m = "checked_rem_euclid" -> IF ZIsZero(y) \/ IsMinNeg1(T, x, y) THEN ONone ELSE OVal(T, ZDivEuclid(x, y)[2])
+      [] m = "midpoint" -> OVal(T, MidPoint(T, x, y))
 UnOut(m, x) ==
     CASE m = "wrapping_neg" -> OWrapping(T, ZNeg(x))
       [] m = "not" -> OPat(T, Compl(T, PatOf(T, x)))
       [] m = "swap_bytes" -> OPat(T, RevBytes(T, PatOf(T, x)))
       [] m = "reverse_bits" -> OPat(T, RevBits(T, PatOf(T, x)))
+      [] m = "op_neg" -> OOperator(Mode, T, ZNeg(x))                 \* unary minus (signed types)
+      [] m = "op_abs" -> OOperator(Mode, T, ZAbs(x))                 \* abs(): panics on MIN with debug assertions
+      [] m = "wrapping_abs" -> OWrapping(T, ZAbs(x))
+      [] m = "signum" -> OVal(T, ZFromInt(ZSign(x)))
+      [] m = "wrapping_next_power_of_two" -> LET np == NextPow2(x) IN IF InRange(T, np) THEN OVal(T, np) ELSE OVal(T, ZZero)
 \* shift amount k is a native integer in 0..2*MW
 ShOut(m, x, k) ==
     LET inr == k < MW
@@ -110,9 +136,11 @@ Un(m, d, a) ==
     LET o == UnOut(m, reg[a])
     IN /\ out' = o
        /\ reg' = Store(d, o)
-       /\ IF m = "wrapping_neg" /\ ringok[a]
-          THEN exact' = [exact EXCEPT ![d] = ZNeg(exact[a])] /\ ringok' = [ringok EXCEPT ![d] = TRUE]
-          ELSE exact' = [exact EXCEPT ![d] = Dec(T, o.v)] /\ ringok' = [ringok EXCEPT ![d] = FALSE]
+       /\ IF IsValue(o)
+          THEN IF m \in {"wrapping_neg", "op_neg"} /\ ringok[a]
+               THEN exact' = [exact EXCEPT ![d] = ZNeg(exact[a])] /\ ringok' = [ringok EXCEPT ![d] = TRUE]
+               ELSE exact' = [exact EXCEPT ![d] = Dec(T, o.v)] /\ ringok' = [ringok EXCEPT ![d] = FALSE]
+          ELSE UNCHANGED <<exact, ringok>>
        /\ steps' = steps + 1
 
 Sh(m, d, a, k) ==
@@ -127,11 +155,77 @@ Sh(m, d, a, k) ==
           ELSE UNCHANGED <<exact, ringok>>
        /\ steps' = steps + 1
 
+
+\* x^k for a native exponent k: wrapped value, None / saturation / panic when the exact power does not fit (C08)
+PowOut(m, x, k) ==
+    LET ex == FromInt(k)
+        pe == PowExact(T, x, ex)
+        fits == ~pe.over /\ InRange(T, pe.v)
+        wrapped == ValOf(T, PowPat(T, x, ex))
+        negres == x.neg /\ k % 2 = 1
+    IN CASE m = "wrapping_pow" -> OVal(T, wrapped)
+         [] m = "checked_pow" -> IF fits THEN OVal(T, pe.v) ELSE ONone
+         [] m = "saturating_pow" -> IF fits THEN OVal(T, pe.v) ELSE OVal(T, IF negres THEN MinOf(T) ELSE MaxOf(T))
+         [] m = "op_pow" -> IF fits THEN OVal(T, pe.v) ELSE IF Mode = "debug" THEN OPanic ELSE OVal(T, wrapped)
+PowAct(m, d, a, k) ==
+    LET o == PowOut(m, reg[a], k)
+    IN /\ out' = o
+       /\ reg' = Store(d, o)
+       /\ IF IsValue(o) THEN exact' = [exact EXCEPT ![d] = Dec(T, o.v)] /\ ringok' = [ringok EXCEPT ![d] = FALSE]
+                        ELSE UNCHANGED <<exact, ringok>>
+       /\ steps' = steps + 1
+
+\* reg[d].set_bit(i, v): the one inherent method that mutates in place (C06); i < BITS; unsigned types only
+\* (BInt has bit() but no set_bit())
+SetBitAct(d, i, v) ==
+    LET o == OPat(T, SetBit(T, PatOf(T, reg[d]), i, v))
+    IN /\ ~MS
+       /\ i < MW
+       /\ out' = o
+       /\ reg' = Store(d, o)
+       /\ exact' = [exact EXCEPT ![d] = Dec(T, o.v)] /\ ringok' = [ringok EXCEPT ![d] = FALSE]
+       /\ steps' = steps + 1
+
+\* `d <<= k`, `d >>= k`
+ShAssign(m, d, k) == Sh(m, d, d, k)
+
+\* print-then-parse and decode-of-the-encoding: whatever the text or the digits are, the composition is the identity on
+\* every value (C10 + C11, C12 + C10, C15); k is the radix where one is needed.  The replayer performs both calls
+\* (rt_be_slice / rt_le_slice decode the BYTES-long two's-complement encoding of the value).
+RtOK(m, k) == CASE m = "rt_str_radix" -> k >= 2 /\ k <= 36
+                [] m \in {"rt_radix_be", "rt_radix_le"} -> k >= 2 /\ k <= 256
+                [] OTHER -> TRUE
+Rt(m, d, a, k) ==
+    LET o == OVal(T, reg[a])
+    IN /\ RtOK(m, k)
+       /\ out' = o
+       /\ reg' = Store(d, o)
+       /\ exact' = [exact EXCEPT ![d] = exact[a]] /\ ringok' = [ringok EXCEPT ![d] = ringok[a]]
+       /\ steps' = steps + 1
+
+\* Sum / Product over the whole register file in register order: the left fold of `+` / `*` from ZERO / ONE with the
+\* operator's panic behaviour at every step (C17)
+RegSeq == IF "r2" \in Regs THEN <<"r0", "r1", "r2">> ELSE <<"r0", "r1">>      \* the configurations name their registers r0, r1(, r2)
+FoldAct(m, d) ==
+    LET xs == [i \in 1..Len(RegSeq) |-> reg[RegSeq[i]]]
+        mul == m \in {"product", "product_ref"}
+        o == FoldOut(T, FoldOp(T, Mode, mul, xs, 1, IF mul THEN ZOne ELSE ZZero))
+    IN /\ out' = o
+       /\ reg' = Store(d, o)
+       /\ IF IsValue(o) THEN exact' = [exact EXCEPT ![d] = Dec(T, o.v)] /\ ringok' = [ringok EXCEPT ![d] = FALSE]
+                        ELSE UNCHANGED <<exact, ringok>>
+       /\ steps' = steps + 1
+
 MNext == \/ \E d \in Regs, c \in Pool.vals : Load(d, c)
          \/ \E m \in BinMethods, d, a, b \in Regs : Bin(m, d, a, b)
-         \/ \E m \in {"op_add", "op_sub", "op_mul", "bitand", "bitor", "bitxor"}, d, b \in Regs : Assign(m, d, b)
+         \/ \E m \in AssignMethods, d, b \in Regs : Assign(m, d, b)
          \/ \E m \in UnMethods, d, a \in Regs : Un(m, d, a)
          \/ \E m \in ShMethods, d, a \in Regs, k \in Pool.amounts : Sh(m, d, a, k)
+         \/ \E m \in {"op_shl", "op_shr"}, d \in Regs, k \in Pool.amounts : ShAssign(m, d, k)
+         \/ \E m \in PowMethods, d, a \in Regs, k \in Pool.amounts : PowAct(m, d, a, k)
+         \/ \E d \in Regs, i \in Pool.amounts, v \in BOOLEAN : SetBitAct(d, i, v)
+         \/ \E m \in RtMethods, d, a \in Regs, k \in Pool.amounts : Rt(m, d, a, k)
+         \/ \E m \in FoldMethods, d \in Regs : FoldAct(m, d)
 
 MSpec == MInit /\ [][MNext]_mvars
 
